@@ -14,8 +14,32 @@ def parseAdj (s : String) : Option (List (Nat × List Nat)) :=
       pure (k, v)
     | _ => none
 
+/-- one step of a sequence: `nodes/adj`, well formed as for `check` -/
+def parseStep (tok : String) : Option (Graph × List Nat) :=
+  match tok.splitOn "/" with
+  | [ns, adj] =>
+    match parseNats ns, parseAdj adj with
+    | some nodes, some al =>
+      let keys := al.map (·.1)
+      if nodes.all (fun n => keys.count n == 1) && keys.all (nodes.contains ·) &&
+         al.all (fun e => e.2.all (nodes.contains ·)) then
+        some (fun t => match al.lookup t with | some ds => ds | none => [], nodes)
+      else none
+    | _, _ => none
+  | _ => none
+
+def showRes : Res → String
+  | .none => "none"
+  | .cyc c _ => "cycle " ++ showNats c
+  | .oof => "oof"
+
 def step (line : String) : String :=
   match line.splitOn " " with
+  | "seq" :: toks =>
+    if toks.isEmpty then "bad-op" else
+    match toks.mapM parseStep with
+    | some calls => "|".intercalate ((runSeq genCfg genPersist ⟨[], []⟩ calls).map showRes)
+    | none => "bad-op"
   | ["check", ns, adj] =>
     match parseNats ns, parseAdj adj with
     | some nodes, some al =>
